@@ -3,8 +3,7 @@
 From Coq Require Import List ZArith Bool Arith Lia.
 From Inferno Require Import Gen.Infra C01.Ring C01.RingProofs.
 Import ListNotations.
-Theorem writerange_tensor_spec : forall A D : Type,
-  (D -> A -> A) ->
+Theorem writerange_tensor_spec : forall (A D : Type) (cast : D -> A -> A),
   (D -> D -> D) ->
   forall (D_eqb : D -> D -> bool) (zeroA : A) (s : ring) (r : rng) 
     (offs : list Z) (osh : list nat) (fwd inplace : bool),
@@ -19,7 +18,7 @@ Theorem writerange_tensor_spec : forall A D : Type,
      shape_eqb osh sh = true ->
      D_eqb d (rdt r) = true ->
      exists s' : ring,
-       writerange_tensor D_eqb zeroA s r offs osh fwd inplace = Ok s' OUnit /\
+       writerange_tensor cast D_eqb zeroA s r offs osh fwd inplace = Ok s' OUnit /\
        wf s' /\
        N s' = N s /\
        ptr s' = ptr s /\
